@@ -10,6 +10,7 @@ import Gts.Lemmas.Guest
 import Gts.Lemmas.Record
 import Gts.Props.C02
 import Gts.Lemmas.MarksInv
+import Gts.Lemmas.MarkGuardOps
 namespace Gts.C10
 open Gts Loc
 
@@ -262,6 +263,19 @@ theorem shift_then_delete_marks_partial (l : Loc) (i n : Int) (hw : wf l = true)
     (g1 : shiftMarkAbs l i n = false) (g2 : expandMarkAbs (shift l i n) i (-n) = false) :
     outerMarks (expand (shift l i n) i (-n)) = outerMarks l :=
   outerMarks_of_marks (shift_then_delete_marks_aux l i n hw hn g1 g2)
+
+/-- … in particular under the hypotheses of `shift_then_delete_den_partial` (K2 guards of both
+steps) plus duplicate-freeness — the conditions under which the Go oracle evaluates the clause -/
+theorem shift_then_delete_marks_nodup_partial (l : Loc) (i n : Int) (hw : wf l = true) (hn : 0 < n)
+    (h1 : shiftAbs l i n = false) (h2 : expandAbs (shift l i n) i (-n) = false)
+    (hnd : (den l).Nodup) :
+    outerMarks (expand (shift l i n) i (-n)) = outerMarks l := by
+  have a := shift_ins l i n hw (by omega)
+  have hnd2 : (den (shift l i n)).Nodup :=
+    Refines.nodup (a.1 h1) (nodup_mapPos_insMap i n (by omega) _ hnd)
+  exact shift_then_delete_marks_partial l i n hw hn
+    (shiftMarkAbs_of_nodup l i n hw (by omega) h1 hnd)
+    (expandDelMarkAbs_of_nodup (shift l i n) i n a.2 hn h2 hnd2)
 
 /-- **embed;delete restores the partial markers** -/
 theorem embed_then_delete_marks_partial (l : Loc) (i n : Int) (hw : wf l = true) (hn : 0 < n)
